@@ -105,20 +105,24 @@ type FuncVC struct {
 	headerSt     map[*ssa.BasicBlock]*loopHead
 	uncontracted map[string]bool
 	trustedUsed  map[string]bool
-	discovery    int
-	ordCount     map[string]int
-	localDone    map[string]bool
-	assertsSeen  map[string]bool
-	allocs       map[string]*Val            // address-taken locals by source name
-	defBlock     map[string]*ssa.BasicBlock // block in which a named local was (last) bound
-	curBlock     *ssa.BasicBlock
-	curPos       token.Pos
-	localNames   map[string]bool
-	dcalls       []*delegCall
-	sites        []string
-	siteOrd      map[*ssa.Call]int    // ordinal of a call among the calls to the same callee, in source order
-	debugVals    map[string]SVal      // most recent value bound to a source-level local (go/ssa debug info)
-	bindings     map[string][]binding // all bindings of source-level locals, by defining block
+	// contractedUsed: callees under a (non-trusted) contract that this function is verified against;
+	// lemmasUsed: lemmas instantiated in its obligations. Both feed the dependency closure of a property check.
+	contractedUsed map[string]bool
+	lemmasUsed     map[string]bool
+	discovery      int
+	ordCount       map[string]int
+	localDone      map[string]bool
+	assertsSeen    map[string]bool
+	allocs         map[string]*Val            // address-taken locals by source name
+	defBlock       map[string]*ssa.BasicBlock // block in which a named local was (last) bound
+	curBlock       *ssa.BasicBlock
+	curPos         token.Pos
+	localNames     map[string]bool
+	dcalls         []*delegCall
+	sites          []string
+	siteOrd        map[*ssa.Call]int    // ordinal of a call among the calls to the same callee, in source order
+	debugVals      map[string]SVal      // most recent value bound to a source-level local (go/ssa debug info)
+	bindings       map[string][]binding // all bindings of source-level locals, by defining block
 }
 
 type loopHead struct {
@@ -760,7 +764,7 @@ func NewFuncVC(W *World, fn *ssa.Function, fc *FuncContract) *FuncVC {
 		vals: map[ssa.Value]*Val{}, reach: map[*ssa.BasicBlock]Term{}, out: map[*ssa.BasicBlock]*State{},
 		edges: map[[2]int]Term{}, params: map[string]SVal{}, callOrd: map[string]int{}, nonnil: map[ssa.Value]bool{},
 		loopOrd: map[*ssa.BasicBlock]int{}, loopBody: map[*ssa.BasicBlock]map[*ssa.BasicBlock]bool{}, backEdge: map[[2]int]bool{},
-		headerSt: map[*ssa.BasicBlock]*loopHead{}, uncontracted: map[string]bool{}, trustedUsed: map[string]bool{}, ordCount: map[string]int{}, localDone: map[string]bool{}, assertsSeen: map[string]bool{}, allocs: map[string]*Val{}, debugVals: map[string]SVal{}, bindings: map[string][]binding{}, defBlock: map[string]*ssa.BasicBlock{}}
+		headerSt: map[*ssa.BasicBlock]*loopHead{}, uncontracted: map[string]bool{}, trustedUsed: map[string]bool{}, contractedUsed: map[string]bool{}, lemmasUsed: map[string]bool{}, ordCount: map[string]int{}, localDone: map[string]bool{}, assertsSeen: map[string]bool{}, allocs: map[string]*Val{}, debugVals: map[string]SVal{}, bindings: map[string][]binding{}, defBlock: map[string]*ssa.BasicBlock{}}
 	return vc
 }
 
@@ -1408,7 +1412,7 @@ func (vc *FuncVC) enterLoop(h *ssa.BasicBlock, order []*ssa.BasicBlock) {
 	}
 	for _, h := range vc.fc.LoopHints[k] {
 		if call, ok := h.E.(*ECall); ok {
-			if lm := vc.W.spec.lemma(call.Fn); lm != nil {
+			if lm := vc.useLemma(call.Fn); lm != nil {
 				vc.assume(instantiateLemma(envH, lm, call.Args))
 				continue
 			}
@@ -1480,10 +1484,10 @@ func (vc *FuncVC) backEdgeChecks(u, h *ssa.BasicBlock, cond Term) {
 	}
 	for _, bh := range vc.fc.BackHints[k] {
 		call, ok := bh.E.(*ECall)
-		if !ok || vc.W.spec.lemma(call.Fn) == nil {
+		if !ok || vc.useLemma(call.Fn) == nil {
 			panic("loop backhint must be a lemma application: " + bh.Src)
 		}
-		vc.assume(Implies(cond, instantiateLemma(env, vc.W.spec.lemma(call.Fn), call.Args)))
+		vc.assume(Implies(cond, instantiateLemma(env, vc.useLemma(call.Fn), call.Args)))
 	}
 	for j, ba := range vc.fc.BackAsserts[k] {
 		label := ba.Name
@@ -1524,7 +1528,7 @@ func (vc *FuncVC) backEdgeChecks(u, h *ssa.BasicBlock, cond Term) {
 func (vc *FuncVC) applyHints(e0 *Env) {
 	for i, h := range vc.fc.Hints {
 		if call, ok := h.E.(*ECall); ok {
-			if lm := vc.W.spec.lemma(call.Fn); lm != nil {
+			if lm := vc.useLemma(call.Fn); lm != nil {
 				vc.assume(instantiateLemma(e0, lm, call.Args))
 				continue
 			}
@@ -1533,6 +1537,15 @@ func (vc *FuncVC) applyHints(e0 *Env) {
 		vc.oblige("G", fmt.Sprintf("hint%d", i+1), TTrue, t, vc.propTags(), vc.fn.Pos(), h.Src)
 		vc.assume(t)
 	}
+}
+
+// useLemma looks a lemma up and records that this function's obligations rest on it.
+func (vc *FuncVC) useLemma(name string) *Lemma {
+	lm := vc.W.spec.lemma(name)
+	if lm != nil {
+		vc.lemmasUsed[lm.Name] = true
+	}
+	return lm
 }
 
 func (sp *Spec) lemma(name string) *Lemma {
